@@ -67,9 +67,21 @@ def takagi(matrix, connector, atol=1e-12):
         diags = np.diag(D)
 
         # NOTE: It is not mentioned in the cited paper, but it does matter which square
-        # root you take here. If the square root is not the "canonical" one, the
-        # decomposition might not yield the original matrix.
-        angles_mod = np.mod(np.angle(diags), 2 * np.pi)  # phases in [0, 2\pi)
+        # root you take here: numerically equal eigenvalues must get the same branch,
+        # otherwise the square root is not a function of `Z` (and not symmetric), and
+        # the decomposition does not yield the original matrix. Hence, the branch cut
+        # is placed in the middle of the largest gap between the eigenphases.
+        angles = np.angle(diags)
+        sorted_angles = np.sort(angles)
+        gaps = np.concatenate(
+            [
+                sorted_angles[1:] - sorted_angles[:-1],
+                sorted_angles[:1] + 2 * np.pi - sorted_angles[-1:],
+            ]
+        )
+        largest_gap_index = np.argmax(gaps)
+        cut = sorted_angles[largest_gap_index] + gaps[largest_gap_index] / 2
+        angles_mod = np.mod(angles - cut, 2 * np.pi) + cut  # in [cut, cut + 2\pi)
         sqrt_diags = np.sqrt(np.abs(diags)) * np.exp(1j * angles_mod / 2)
 
         sqrt_Z = Q @ np.diag(sqrt_diags) @ np.conj(Q).T
